@@ -1,4 +1,5 @@
 import Originium.Model.LSM
+import Originium.Model.Kway
 /-! # C09 — compaction never changes the answer of any permitted read
 
 Compacting any set of tables, with any version-discard watermark, yields tables that answer every
@@ -85,9 +86,24 @@ example :
     (compactOutput 2 [old, new]).map (fun e => (e.key.ts, e.tomb)) = [(2, true)] := by
   unfold Consistent; decide
 
+
+/-- `mergeVersions` above is a specification (sorted, one entry per versioned key, the later list
+    wins).  The code (`pkg/kway/merge.go`) computes it with a heap holding one element per input list
+    and a map `latest`: whatever minimum (with respect to `Heap.Less`) each `heap.Pop` returns, for
+    strictly sorted inputs the sorted values of `latest` are exactly that specification — and the
+    loop always runs to completion. -/
+theorem C09_kway_heap_merge (lists : List (List E)) (hs : ∀ l ∈ lists, SortedE vlt l) :
+    (∃ out, Kway.Run (Kway.initFrom 0 lists) out) ∧
+    ∀ out, Kway.Run (Kway.initFrom 0 lists) out →
+      ∀ merged, SortedE vlt merged → (∀ x, x ∈ merged ↔ ∃ li, Kway.LastT out (x, li)) →
+        merged = mergeVersions lists :=
+  ⟨Kway.run_exists _ _ rfl (Kway.good_initFrom 0 lists hs).1,
+   fun _ hr merged hsm hmem => Kway.run_eq_spec lists hs hr merged hsm hmem⟩
+
 #print axioms C09_preserves
 #print axioms C09_only_shadowed
 #print axioms C09_no_invention
 #print axioms C09_sorted_nonempty
 #print axioms C09_low_zero
+#print axioms C09_kway_heap_merge
 end Props
